@@ -23,7 +23,8 @@ META = dict(
             'H16b: two service entries, optional keys max-nb-of-channel / output-power / tx_power / effective-freq-slot / explicit route each '
             'present, null or absent (9216 patterns), powers symbolic',
             'H16c: triangle (ring4, ring4+chord thorough) with symbolic link lengths, two requests with 5 include options each, same or '
-            'opposite end points, both orders'],
+            'opposite end points, both orders',
+            'H16d: GGN methods with computed_number_of_channels = 2, two successive combs of 2 / 4 / 6 channels (GGN integrals stubbed)'],
     assumptions=['floats as reals', 'spectrum slots (which legitimately depend on earlier requests) are not compared'],
     stubs=['NliSolver.compute_nli -> zero NLI (process-local, this harness only)'],
 )
